@@ -5,6 +5,8 @@ scope-resetting directives, ill-named labels and includes of a catalogue of smal
 collide by construction.  The reference scope resolver of mc/refasm.py predicts the value or the
 rejection.
 """
+import itertools
+
 from mc import refasm as R
 from mc.histories import histories, run_program
 from mc.probe_isa import probe_isa
@@ -54,7 +56,7 @@ def meta(tier):
                 'references = .byte name, constants, .org, .memzone, 6 catalogue includes, 6 ill-named labels) up to the depth '
                 'bound, each in two variants (as is / with closing definitions for referenced-but-undefined global and file '
                 'labels, which makes them forward references); expected = value of the unique visible definition or rejection; '
-                'plus labels / constants named like a register under 4 register spellings (lower, upper, mixed case) x 5 positions (must be rejected) and near-miss names (accepted); non-trivial = history in which one name is defined in two scopes or referenced outside the defining scope; '
+                'plus labels / constants named like a register under 4 register spellings (lower, upper, mixed case) x 5 positions (must be rejected) and near-miss names (accepted); plus 8 kinds of reference (visible and invisible: other region, other file, cut off by an origin, undefined) x 4 uses x {muted, unmuted} x {main file, included file}; non-trivial = history in which one name is defined in two scopes or referenced outside the defining scope; '
                 'states = distinct reference label tables',
         'bounds': {'alphabet': [str(s) for s in sigma(0)], 'depth_full': 3 if q else 4, 'depth_core': 4 if q else 5,
                    'core_alphabet': [str(sigma(0)[i]) for i in CORE_IDX],
@@ -150,6 +152,7 @@ def shard(acc, tier, idx, n):
             if extra:
                 run_program(acc, PARAMS, ISA, files2, clause=clause, nontrivial=(h, 'closed') if nt else None, sample=False)
     register_names(acc, idx, n)
+    muted_references(acc, idx, n)
 
 
 def register_names(acc, idx, n):
@@ -199,6 +202,35 @@ def register_names(acc, idx, n):
                 if msg:
                     acc.violation([case], spec, f'label {other} with registers {list(regs)}: {msg}', [out])
                 acc.judge(clause='resolved', nontrivial_key=('regname-ok', regs, other))
+
+
+def muted_references(acc, idx, n):
+    """A reference is resolved the same way whether or not its line is muted: every kind of invisible definition, written inside a
+    #mute ... #unmute block, is still rejected, and a visible one is accepted (its bytes simply do not reach the image)."""
+    ctr = 0
+    refs = [('G1', True), ('.l1', False), ('_f1', True), ('nowhere', False), ('.cut', False), ('_fi', False), ('.li', False), ('K', True)]
+    uses = [lambda r: ('data', 1, [('lab', r)]), lambda r: ('data', 2, [('lab+', r, 1)]), lambda r: ('ldi', 'a', ('lab', r)), lambda r: ('jmp', ('lab', r))]
+    for (name, visible), ui, muted, where in itertools.product(refs, range(len(uses)), (False, True), ('main', 'included')):
+        ctr += 1
+        if ctr % n != idx:
+            continue
+        use = uses[ui](name)
+        body = ([('mute',)] if muted else []) + [use] + ([('unmute',)] if muted else [])
+        inc = [('label', '_fi'), ('nop',), ('label', 'GI'), ('label', '.li'), ('nop',)]
+        main = [('const', 'K', 0x51), ('label', 'G1'), ('nop',), ('label', '.l1'), ('nop',), ('label', '_f1'), ('nop',),
+                ('label', 'G2'), ('label', '.cut'), ('nop',), ('org', 0x30, None)]
+        if where == 'main':
+            files = {'main.asm': main + [('include', 'ri.asm')] + body + [('data', 1, [0xEE])], 'ri.asm': inc}
+        else:
+            # the reference sits in the included file: only globals of the includer are visible there
+            if name in ('_f1',):
+                visible_here = False
+            elif name in ('_fi', '.li'):
+                visible_here = True
+            else:
+                visible_here = visible
+            files = {'main.asm': main + [('include', 'ri.asm'), ('data', 1, [0xEE])], 'ri.asm': inc + body}
+        ref, out, msg = run_program(acc, PARAMS, ISA, files, clause=clause, nontrivial=('muted-ref', name, ui, muted, where), sample=(ctr % 17 == 0))
 
 
 def judge(spec, outcomes):
